@@ -1,8 +1,15 @@
 package main
 
+import (
+	"go/ast"
+	"go/token"
+	"strings"
+)
+
 func extractAll(p *pkg, f *facts) {
 	codecFacts(p, f)
 	authFacts(p, f)
+	handleFacts(p, f)
 }
 
 func (p *pkg) constNat(f *facts, leanName, goName string) {
@@ -81,4 +88,73 @@ func authFacts(p *pkg, f *facts) {
 	} else {
 		f.boolean("squashCopiesBeforeWrite", false, false, "func applySquashing not found")
 	}
+}
+
+func handleFacts(p *pkg, f *facts) {
+	p.constNat(f, "defaultMaxHandles", "DefaultMaxHandles")
+	fn, ok := p.funcs["FileHandleMap.Allocate"]
+	if !ok {
+		f.nat("evictDivisor", 0, false, "func Allocate not found")
+		f.boolean("evictionSkipsAssigned", false, false, "func Allocate not found")
+	} else {
+		// evictCount := maxH / N
+		var div int64
+		found := false
+		skips := false
+		ast.Inspect(fn.Body, func(n ast.Node) bool {
+			switch t := n.(type) {
+			case *ast.AssignStmt:
+				if len(t.Lhs) == 1 && exprString(p.fset, t.Lhs[0]) == "evictCount" && len(t.Rhs) == 1 {
+					if be, ok := t.Rhs[0].(*ast.BinaryExpr); ok && be.Op == token.QUO {
+						if v, ok := p.eval(be.Y); ok {
+							div, found = v, true
+						}
+					}
+				}
+			case *ast.ForStmt:
+				// the eviction loop: `if h == handle { continue }` as a statement of its body
+				for _, s := range t.Body.List {
+					if is, ok := s.(*ast.IfStmt); ok {
+						c := exprString(p.fset, is.Cond)
+						if (c == "h == handle" || c == "handle == h") && len(is.Body.List) == 1 {
+							if bs, ok := is.Body.List[0].(*ast.BranchStmt); ok && bs.Tok == token.CONTINUE {
+								skips = true
+							}
+						}
+					}
+				}
+			}
+			return true
+		})
+		f.nat("evictDivisor", div, found, "no `evictCount := maxH / N` in Allocate")
+		f.boolean("evictionSkipsAssigned", skips, true, "")
+	}
+	// every handler maps a failed handle lookup to NFSERR_STALE
+	all := true
+	n := 0
+	for name, fd := range p.funcs {
+		if !strings.HasPrefix(name, "NFSProcedureHandler.handle") || fd.Body == nil {
+			continue
+		}
+		ast.Inspect(fd.Body, func(node ast.Node) bool {
+			is, ok := node.(*ast.IfStmt)
+			if !ok {
+				return true
+			}
+			c := exprString(p.fset, is.Cond)
+			if c != "!ok" {
+				return true
+			}
+			// must be preceded by a lookupNode assignment: check the body returns a STALE helper
+			body := exprString(p.fset, is.Body)
+			if strings.Contains(body, "nfsError") {
+				n++
+				if !strings.Contains(body, "NFSERR_STALE") {
+					all = false
+				}
+			}
+			return true
+		})
+	}
+	f.boolean("handlersStaleOnMiss", all && n >= 15, n > 0, "no lookupNode failure branches found")
 }
